@@ -12,7 +12,8 @@
 //! observation:  A:<per action, comma list>|DL:<delivered>|H:<handled>|X:<final>
 //!   per action: E -> k | f (channel full) | k!<n> (Ok with a wrong length) | x (other error)
 //!               C -> c ; D -> d ; R -> r | r- (gate empty) ; S -> s<submitted>.<drained>.<queued>.<panics>
-//!               suffixes: !stuck (the background side did not settle in time), !slow (the call took > 300 ms)
+//!               suffixes: !stuck (the background side did not settle in time), !slow (the call took > 300 ms),
+//!               !stats (MetricSink::stats() read through the queuing sink differs from the wrapped sink's own)
 //!   delivered: <acceptance index of the metric>:<k|e<id>|p> joined by ";" ; handled: <index>:<id>@<#completed deliveries>
 //!   final: rel<0|1> (wrapped sink dropped when the script ended) [caller] (wrapped sink or handler ran on the caller's thread)
 use crate::util::{payload_of, Payload};
@@ -99,6 +100,29 @@ impl MetricSink for GatedSink {
         self.flush_impl();
         Ok(())
     }
+
+    /// the wrapped sink's own figures (what it accepted / refused so far); the queuing sink must report exactly these
+    fn stats(&self) -> cadence::SinkStats {
+        gate_stats(&self.gate)
+    }
+}
+
+pub fn gate_stats(gate: &Gate) -> cadence::SinkStats {
+    let st = gate.m.lock().unwrap();
+    let mut s = cadence::SinkStats::default();
+    for (m, o, _) in st.log.iter() {
+        match o {
+            Outcome::Ok => {
+                s.bytes_sent += m.len() as u64;
+                s.packets_sent += 1;
+            }
+            _ => {
+                s.bytes_dropped += m.len() as u64;
+                s.packets_dropped += 1;
+            }
+        }
+    }
+    s
 }
 
 impl GatedSink {
@@ -510,7 +534,20 @@ pub fn run_case(line: &str) -> String {
             }
             "S" => {
                 let h = rig.handles.iter().flatten().next().expect("sample needs a live handle");
-                format!("s{}.{}.{}.{}", h.submitted(), h.drained(), h.queued(), h.panics())
+                // MetricSink::stats() through the queuing sink is the wrapped sink's, whatever the queue holds
+                let (a, b) = (h.stats(), gate_stats(&rig.gate));
+                let same = a.bytes_sent == b.bytes_sent
+                    && a.packets_sent == b.packets_sent
+                    && a.bytes_dropped == b.bytes_dropped
+                    && a.packets_dropped == b.packets_dropped;
+                format!(
+                    "s{}.{}.{}.{}{}",
+                    h.submitted(),
+                    h.drained(),
+                    h.queued(),
+                    h.panics(),
+                    if same { "" } else { "!stats" }
+                )
             }
             _ => panic!("bad action {}", a),
         };
